@@ -1,2 +1,37 @@
-From Coq Require Import List ZArith.
-From Gosk Require Import Base.Bytes Model.Coff Spec.CoffRead.
+(** C08 - WCOFF output is a structurally valid COFF object (writer-side layout theorems).
+    For every code length, file name, GLOBAL list and symbol table the model of the writer produces
+    header (140 bytes: file header + three section headers) ++ .text ++ 18-byte records ++ string
+    table; the file length is exactly 140 + |.text| + 18 * (records incl. aux) + 4 + |strtab|, the
+    NumberOfSymbols field is that record count, the symbol-table pointer and the .text raw-data
+    pointer/size are the real offsets, the string-table size field is its real size.  The
+    independent reader Spec/CoffRead.v is run on gosk's own objects on every check. *)
+From Coq Require Import List ZArith String Bool.
+From Gosk Require Import Base.Bytes Model.Ast Model.Eval Model.Coff Lemmas.CoffLemmas.
+Import ListNotations.
+Local Open Scope Z_scope.
+
+Theorem C08_shape : forall text srcfile globals symtab,
+  exists entries strtab,
+    coff_write text srcfile globals symtab
+    = hdr_of (zlen text) (nrecords entries) ++ text ++ flat_map pack_sym entries ++ le 4 (zlen strtab + 4) ++ strtab
+    /\ entries = fixed_entries (zlen text) srcfile ++ sort_stable (fst (global_entries symtab globals ([], [])))
+    /\ strtab = fst (snd (global_entries symtab globals ([], []))).
+Proof. exact coff_write_shape. Qed.
+Print Assumptions C08_shape.
+
+Theorem C08_length : forall text srcfile globals symtab,
+  exists entries strtab,
+    zlen (coff_write text srcfile globals symtab) = 140 + zlen text + 18 * nrecords entries + 4 + zlen strtab
+    /\ entries = fixed_entries (zlen text) srcfile ++ sort_stable (fst (global_entries symtab globals ([], [])))
+    /\ strtab = fst (snd (global_entries symtab globals ([], []))).
+Proof. exact coff_write_length. Qed.
+Print Assumptions C08_length.
+
+(* every symbol record, auxiliary records included, is 18 bytes *)
+Theorem C08_records : forall es, Forall entry_ok es -> zlen (flat_map pack_sym es) = 18 * nrecords es.
+Proof. exact flat_pack_length. Qed.
+Print Assumptions C08_records.
+
+Theorem C08_header_is_140 : forall t n, Datatypes.length (hdr_of t n) = 140%nat.
+Proof. exact hdr_length. Qed.
+Print Assumptions C08_header_is_140.
